@@ -114,6 +114,31 @@ theorem C06_names_injective :
     have := congrArg (fun l => l.reverse.head?) h
     simp [assocSuffix] at this
 
+/-- **`assocName_injective`**: the association table name `f"{table.lower()}_{field}_association"` is an injective
+function of the (class, field) pair — up to the case of the class name, which `table.lower()` erases — for class names
+free of `dao_`. In particular two different collection fields of one class never share an association table. -/
+theorem assocName_injective (c₁ c₂ f₁ f₂ : Name) (h₁ : hasDaoUnderscore (lower c₁) = false)
+    (h₂ : hasDaoUnderscore (lower c₂) = false)
+    (h : assocName (tableName c₁) f₁ = assocName (tableName c₂) f₂) : lower c₁ = lower c₂ ∧ f₁ = f₂ := by
+  have e : ∀ c f : Name, assocName (tableName c) f = lower c ++ ['d', 'a', 'o', '_'] ++ (f ++ assocSuffix) := by
+    intro c f
+    simp [assocName, tableName, daoSuffix, lower, assocSuffix]
+  rw [e, e] at h
+  have := dao_split_unique _ _ _ _ h₁ h₂ h
+  exact ⟨this.1, List.append_cancel_right this.2⟩
+
+/-- the association table name keeps every character of the table and the field name (no truncation): its length is
+`len(table) + 1 + len(field) + len("_association")` -/
+theorem assocName_length (t f : Name) : (assocName t f).length = t.length + f.length + 13 := by
+  simp [assocName, lower, assocSuffix]
+  omega
+
+/-- … and so does every generated identifier: `XDAO`, `f_id`, `<table.lower()>_id` -/
+theorem generated_name_lengths (c f : Name) :
+    (tableName c).length = c.length + 3 ∧ (fkName f).length = f.length + 3 ∧
+      (assocFk (tableName c)).length = c.length + 6 := by
+  simp [tableName, fkName, assocFk, lower, daoSuffix, idSuffix]
+
 /-- the two FK columns of an association table between different classes (ignoring case) are named differently -/
 theorem C06_assoc_fk_distinct (c₁ c₂ : Name) (h : lower c₁ ≠ lower c₂) :
     assocFk (tableName c₁) ≠ assocFk (tableName c₂) := by
@@ -1398,5 +1423,10 @@ example : assocName (tableName ['A']) ['x', 'd', 'a', 'o', '_', 'y'] =
 /-- the `*_id` hygiene of `WF` is necessary: a reference `x` next to a scalar `x_id` gives two attributes `x_id` (test) -/
 example : ¬ Valid (generate Quirks.none
     [⟨['A'], none, [⟨['x'], .ref ['A'] false⟩, ⟨['x', '_', 'i', 'd'], .scalar .int false⟩]⟩]) := by decide
+
+
+/-- long names that agree in their first 51 characters still give different association tables (test) -/
+example : assocName (tableName "EnvironmentalMonitoringStation".toList) "temperature_sensors_indoor".toList ≠
+    assocName (tableName "EnvironmentalMonitoringStation".toList) "temperature_sensors_outdoor".toList := by decide
 
 end KrroodVerif.OrmGen
